@@ -54,6 +54,16 @@ structure FromOpts where
   round : Int := 0
 deriving DecidableEq, Repr, Inhabited
 
+/-- `pipeline.KapacitorLoopbackNode` (a child of a from-node: `from()…|kapacitorLoopback().database(db).retentionPolicy(rp)
+.measurement(name).tag(k, v)…`): where its points are written back to (`name` `""` = property not set: the point keeps its name) and
+the static tags it sets (a Go map: keys distinct). What the node does is transcribed in Kap/Model/C02Loop.lean. -/
+structure Loop where
+  db : String := ""
+  rp : String := ""
+  name : String := ""
+  tags : List (String × String) := []
+deriving DecidableEq, Repr, Inhabited
+
 /-- `pipeline.FromNode`: its selection (`""` = property not set; `wh` = index of the where-lambda) and its options. -/
 structure From where
   db : String := ""
@@ -63,6 +73,8 @@ structure From where
   /-- `none`: child of the stream node (`stream|from()`); `some j`: child of from-node #`j` (`fromJ|from()`), `j` earlier in pipeline order -/
   parent : Option Nat := none
   opts : FromOpts := {}
+  /-- the `kapacitorLoopback()` nodes hanging below this from-node, in pipeline order (routing of the task itself never looks at them) -/
+  loops : List Loop := []
 deriving DecidableEq, Repr, Inhabited
 
 /-- `kapacitor.Task`: id, declared dbrps, the from-nodes in pipeline order. -/
